@@ -8,6 +8,7 @@ import (
 	"fmt"
 	"math"
 	"sort"
+	"strconv"
 	"strings"
 	"sync"
 	"testing"
@@ -29,6 +30,7 @@ import (
 //              instance all decide the same for the same (id, rate)
 //   nesting    over a ladder of rates, kept at N implies kept at every M <= N
 //   fraction   over a fixed number of PRNG ids the kept fraction is 1/N within 6 sigma
+//   boundary   searched (id, rate) pairs whose hash is exactly at / one above the threshold
 
 // ---- adapters to the code under test ---------------------------------------
 
@@ -247,6 +249,74 @@ func TestVerif_C10(t *testing.T) {
 		}
 		run.Count("decisions", int64(nids*(workers+1)))
 		run.Nontrivial(fmt.Sprintf("goroutines:%d:%d", rate, kept))
+	})
+
+	// --- directed boundary inputs: hash exactly at / one above the threshold -----
+	// A random id hits the threshold exactly with probability 2^-32, so sampling never
+	// sees "<" vs "<=" or an off-by-one bound. Search instead: for PRNG-numbered ids compute
+	// the hash h with the model and look for a rate N in 2..2^31 with floor((2^32-1)/N) == h
+	// (kept: at the threshold) or == h-1 (dropped: first value above it). About one id in
+	// 2^15 admits such a rate.
+	wantPairs := run.N(300, 3000)
+	run.Cases("boundary", 1, func(_ int, rng *verifkit.Rand) {
+		const maxU32 = uint64(math.MaxUint32)
+		prefix := "b" + rng.Hex(6) + "-"
+		salt := c10Salt()
+		buf := make([]byte, 0, 64)
+		at, above, scanned := 0, 0, 0
+		limit := wantPairs * 400000
+		for n := 0; (at < wantPairs || above < wantPairs) && n < limit; n++ {
+			scanned++
+			buf = append(buf[:0], prefix...)
+			buf = strconv.AppendInt(buf, int64(n), 36)
+			idLen := len(buf)
+			buf = append(buf, salt...)
+			sum := sha1.Sum(buf)
+			h := uint64(binary.BigEndian.Uint32(sum[:4]))
+			for _, target := range [2]uint64{h, h - 1} {
+				if h < 3 || target < 2 {
+					continue
+				}
+				N := maxU32 / target
+				if N < 2 || N > 1<<31 || maxU32/N != target {
+					continue
+				}
+				atThreshold := target == h
+				if atThreshold && at >= wantPairs || !atThreshold && above >= wantPairs {
+					continue
+				}
+				id := string(buf[:idLen])
+				rate, keep := c10Decide(c10NewDet(int(N)), id)
+				_, keepBelow := c10Decide(c10NewDet(int(N)-1), id) // nesting right at the edge: smaller rate, larger bound
+				wit := map[string]any{"trace_id": id, "rate": N, "hash": h, "threshold_floor_maxuint32_div_rate": maxU32 / N, "keep": keep}
+				run.Count("decisions", 2)
+				if rate != uint(N) {
+					run.Violation("C10/deterministic/reported-rate", fmt.Sprintf("configured rate %d reported as %d", N, rate), wit)
+				}
+				if atThreshold {
+					at++
+					if !keep {
+						run.Violation("C10/deterministic/threshold-boundary/hash-equal-to-threshold-dropped", fmt.Sprintf("hash %d equals floor((2^32-1)/%d) but the trace was dropped", h, N), wit)
+					}
+					if keep && !keepBelow {
+						run.Violation("C10/deterministic/not-nested", fmt.Sprintf("kept at rate %d but dropped at rate %d", N, N-1), wit)
+					}
+					run.Nontrivial(fmt.Sprintf("boundary:at:%s", c10RateClass(int(N))))
+				} else {
+					above++
+					if keep {
+						run.Violation("C10/deterministic/threshold-boundary/hash-one-above-threshold-kept", fmt.Sprintf("hash %d is floor((2^32-1)/%d)+1 but the trace was kept", h, N), wit)
+					}
+					run.Nontrivial(fmt.Sprintf("boundary:above:%s", c10RateClass(int(N))))
+				}
+			}
+		}
+		run.Count("boundary_ids_scanned", int64(scanned))
+		run.Count("boundary_pairs_hash_equal_to_threshold", int64(at))
+		run.Count("boundary_pairs_hash_one_above_threshold", int64(above))
+		if at < wantPairs/4 || above < wantPairs/4 {
+			run.Inconclusive(fmt.Sprintf("boundary search found only %d/%d pairs in %d ids", at, above, scanned))
+		}
 	})
 
 	// --- kept fraction ----------------------------------------------------
